@@ -183,6 +183,8 @@ type Server struct {
 	Scripts []NegScript
 	Conns   []*SrvConn
 	Certs   *CertSet
+	// TLSTickets: the server resumes TLS sessions (session tickets)
+	TLSTickets bool
 	// OnElem lets a scenario react to (or just observe) client elements after
 	// the standard negotiation handling. Return true if consumed.
 	OnElem func(sc *SrvConn, el *Elem) bool
@@ -246,6 +248,7 @@ type SrvConn struct {
 	HandshakeTLS string // "", "ok", or error text
 	closedByUs   bool
 	PauseReads   bool
+	TLSResumed   bool // the TLS session of this connection is a resumed one: no certificate was presented on it
 	closer       int
 }
 
@@ -758,6 +761,9 @@ func (sc *SrvConn) establish(how string) {
 
 func (sc *SrvConn) startTLS() {
 	cfg := sc.S.Certs.ServerConfig(sc.Script.Cert, sc.e.Tape.Seed)
+	if sc.S.TLSTickets {
+		cfg = sc.S.Certs.ServerConfigTickets(sc.Script.Cert, sc.e.Tape.Seed)
+	}
 	if sc.Script.TLS12 {
 		cfg.MaxVersion = tls.VersionTLS12
 	}
@@ -789,6 +795,7 @@ func (sc *SrvConn) startTLS() {
 		return
 	}
 	sc.HandshakeTLS = "ok"
+	sc.TLSResumed = tc.ConnectionState().DidResume
 	sc.e.Logf("srv.tls", "%s handshake complete", sc.name())
 	sc.e.Probe("tls.handshake_complete")
 	sc.conn = tc
